@@ -216,3 +216,98 @@ def _rng(t, env, memo):
             return (1.0, INF)
         return TOP
     return TOP
+
+
+# ---------------------------------------------------------------------------
+# parity under a mirror: given atoms that flip sign (odd), is the term even / odd / neither?
+EVEN, ODD, ASYM, UNK = 'even', 'odd', 'asym', '?'
+ODD_FUNS = {'sin', 'tan', 'asin', 'atan', 'to_radians', 'to_degrees', 'sinh', 'tanh', 'signum'}
+EVEN_FUNS = {'cos', 'abs', 'cosh'}
+
+
+def parity(t, odd_atoms, even_atoms=None, memo=None):
+    """parity of t under x -> -x for every x in odd_atoms (all other atoms unchanged).
+    'asym' is definite (a sum of an odd and an even non-zero part); '?' is unknown."""
+    if memo is None:
+        memo = {}
+    k = id(t)
+    if k in memo:
+        return memo[k][1]
+    r = _parity(t, odd_atoms, memo)
+    memo[k] = (t, r)
+    return r
+
+
+def _parity(t, odd, memo):
+    if t in odd:
+        return ODD
+    if not isinstance(t, tuple) or not t:
+        return EVEN
+    if _num(t) is not None or t[0] == 'c':
+        return EVEN
+    tag = t[0]
+    if tag in ('param', 'field', 'mapget', 'elem'):
+        # an atom that is not mirrored - unless it contains a mirrored atom (then unknown)
+        for x in subterms(t):
+            if x in odd and x is not t:
+                return UNK
+        return EVEN
+    if tag == 'bin':
+        op = t[1]
+        a = parity(t[2], odd, None, memo)
+        b = parity(t[3], odd, None, memo)
+        if UNK in (a, b):
+            return UNK
+        if op in ('Add', 'Sub'):
+            if a == b:
+                return a
+            if ASYM in (a, b):
+                return ASYM if a == b else UNK
+            return ASYM
+        if op in ('Mul', 'Div'):
+            if ASYM in (a, b):
+                return UNK
+            return EVEN if a == b else ODD
+        if op in ('Lt', 'Le', 'Gt', 'Ge', 'Eq', 'Ne'):
+            return EVEN if (a == EVEN and b == EVEN) else UNK
+        return UNK
+    if tag == 'un':
+        a = parity(t[2], odd, None, memo)
+        return a
+    if tag == 'cast':
+        return parity(t[2], odd, None, memo)
+    if tag == 'ite':
+        c = parity(t[1], odd, None, memo)
+        a = parity(t[2], odd, None, memo)
+        b = parity(t[3], odd, None, memo)
+        if c == EVEN and a == b:
+            return a
+        return UNK
+    if tag == 'app':
+        f = t[1]
+        ps = [parity(x, odd, None, memo) for x in t[2]]
+        if UNK in ps:
+            return UNK
+        if f in ('to_degrees', 'to_radians') and len(ps) == 1:
+            return ps[0]            # linear: preserves even / odd / asym
+        if f in ODD_FUNS and len(ps) == 1:
+            return ps[0] if ps[0] in (EVEN, ODD) else UNK
+        if f in EVEN_FUNS and len(ps) == 1:
+            return EVEN if ps[0] in (EVEN, ODD) else UNK
+        if f == 'atan2' and len(ps) == 2:
+            if ps == [ODD, EVEN]:
+                return ODD
+            if ps == [EVEN, EVEN]:
+                return EVEN
+            if ps[0] == ODD and ps[1] in (ODD, ASYM):
+                return ASYM
+            return UNK
+        if f == 'acos' and ps == [EVEN]:
+            return EVEN
+        if all(p == EVEN for p in ps):
+            return EVEN
+        return UNK
+    if tag == 'enum':
+        ps = {parity(x, odd, None, memo) for x in t[4]}
+        return EVEN if ps <= {EVEN} else UNK
+    return UNK
